@@ -99,6 +99,8 @@ func (f *FnVC) mapUpdate(st *State, x *ssa.MapUpdate) {
 		f.noteSiteRaw(st, "mapupdate", []Val{m, k, v}, x.Pos())
 	}
 	f.mapStore(st, m.T, mt, f.mapKey(k), &v.T)
+	// execution continues past an assignment to a map entry only if the map was not nil (Go panics otherwise)
+	f.assume(st, not(eq(m.T, Term{"0", SRef})))
 }
 
 // mapStore sets (v != nil) or deletes (v == nil) key k.
